@@ -185,6 +185,9 @@ func maxLegalSize(s []byte) int {
 		if size < 8 {
 			break
 		}
+		if pos+size > 1<<32-1 {
+			break // rejected by the parser: the position would wrap
+		}
 		if pos+size > len(s) {
 			if size > worst {
 				worst = size
@@ -391,6 +394,27 @@ func runC18(c *lib.Ctx) error {
 			add(c18in{Stream: s, Sched: randSched(len(s)), EOFData: rng.Intn(2) == 0, CbFail: -1, BufSize: bufSizes[rng.Intn(len(bufSizes))]}, gid, nil)
 			c.Count(fmt.Sprintf("malformed-size"))
 		}
+	}
+	// 4b. a size that wraps the uint32 position exactly back onto the start of an earlier box: a parser
+	// that lets the position wrap walks the same boxes again and never returns
+	nWrapBack := 3
+	if c.Thorough() {
+		nWrapBack = 12
+	}
+	for i := 0; i < nWrapBack; i++ {
+		var s []byte
+		var starts []int
+		nb := 2 + rng.Intn(3)
+		for j := 0; j < nb; j++ {
+			starts = append(starts, len(s))
+			s = append(s, mkbox([]string{"moof", "free", "styp", "moov"}[rng.Intn(4)], lowPayload(rng.Intn(12)))...)
+		}
+		t := starts[rng.Intn(len(starts))]
+		sz := uint32(uint64(1<<32) - uint64(len(s)) + uint64(t))
+		s = append(s, rawbox(sz, "free", lowPayload(rng.Intn(8)))...)
+		gid++
+		add(c18in{Stream: s, Sched: randSched(len(s)), EOFData: i%2 == 0, CbFail: -1, BufSize: bufSizes[rng.Intn(len(bufSizes))]}, gid, nil)
+		c.Count("malformed-size-wraps-back")
 	}
 	// 5. random bytes
 	for i := 0; i < nMal/3; i++ {
